@@ -556,6 +556,9 @@ impl Check for C05 {
 
         // 3. the violation must be rejected, with an error, without output
         let bad_out = compile(&b.bad);
+        if std::env::var("C05_DUMP_ALL").is_ok() {
+            dump("bad", kind, &b.bad, &bad_out);
+        }
         match &bad_out {
             Outcome::Rejected { errors, bytes_written } => {
                 if errors.is_empty() {
@@ -580,6 +583,7 @@ impl Check for C05 {
                 labels.add(format!("reject:{}:{}", kind.group(), reason));
                 if !kind.expected_reasons().contains(&reason.as_str()) {
                     labels.add("rejected-for-another-reason");
+                    labels.add(format!("other-reason-group:{}", kind.group()));
                     labels.add(format!("other-reason:{}:{}", kind.name(), reason));
                     dump("reason", kind, &b.bad, &bad_out);
                     return Verdict::Pass { nontrivial: false };
@@ -740,11 +744,15 @@ impl Check for C05 {
     }
 
     fn health(&self, s: &Stats) -> Result<(), String> {
-        if s.evaluations < 1000 || std::env::var("C05_ONLY").is_ok() || std::env::var("C05_AVOID_ALL").is_ok() {
+        if s.evaluations < 1000 || std::env::var("C05_ONLY").is_ok() {
             return Ok(());
         }
+        let avoid_all = std::env::var("C05_AVOID_ALL").is_ok();
         let ev = s.evaluations as f64;
         for k in ALL_KINDS {
+            if avoid_all && k.closure_in_loop() {
+                continue;
+            }
             let n = s.label(&format!("decided:{}", k.name()));
             if n < 3 {
                 return Err(format!("violation kind {} was decided only {} times", k.name(), n));
@@ -763,6 +771,20 @@ impl Check for C05 {
         }
         if s.label("rejected-for-another-reason") as f64 > 0.05 * decided as f64 {
             return Err(format!("{} of {} violations were rejected for a reason other than the planted one", s.label("rejected-for-another-reason"), decided));
+        }
+        let mut groups: Vec<&str> = ALL_KINDS.iter().map(|k| k.group()).collect();
+        groups.sort();
+        groups.dedup();
+        for g in groups {
+            let n = s.label(&format!("group:{}", g));
+            let other = s.label(&format!("other-reason-group:{}", g));
+            if n > 0 && other * 2 >= n {
+                return Err(format!(
+                    "{} of {} `{}` violations were rejected, but for a reason other than the planted one (see the other-reason:* labels): the check \
+                     does not exercise that rule any more",
+                    other, n, g
+                ));
+            }
         }
         for p in ["FnBody", "Closure", "Method", "Branch", "CaseArm", "LoopBody", "Program"] {
             if (s.label(&format!("placement:{}", p)) as f64) < 0.01 * decided as f64 {
